@@ -61,14 +61,22 @@ var e1HMAC = []byte{0, 1, 2, 3, 4, 5, 6, 7, 8, 9, 10, 11, 12, 13, 14, 15}
 func e1Config(g *core.Stream, variant int) string {
 	var b strings.Builder
 	exp := []string{"10m0s", "10m0s", "1m0s", "30m0s", "2h0m0s"}[g.Intn(5)]
-	fmt.Fprintf(&b, "SessionExpiration = %q\n", exp)
+	if g.Chance(1, 12) {
+		// a configuration that does not mention the expiration at all (the documented default applies)
+	} else {
+		fmt.Fprintf(&b, "SessionExpiration = %q\n", exp)
+	}
 	fmt.Fprintf(&b, "PostMessageCooloff = \"0s\"\n")
 	if variant != 1 {
 		secret := e1HMACHex
 		if g.Chance(1, 10) {
 			secret = "" // set but empty
 		}
-		fmt.Fprintf(&b, "CaptchaURL = \"http://captcha.example/\"\nCaptchaHMACSecret = %q\n", secret)
+		url := "http://captcha.example/"
+		if g.Chance(1, 12) {
+			url = g.Pick([]string{"http://[::1", "%zz", "://", "http://captcha.example/%", "captcha", "http://a b/"}) // accepted by the TOML check
+		}
+		fmt.Fprintf(&b, "CaptchaURL = %q\nCaptchaHMACSecret = %q\n", url, secret)
 	}
 	if g.Chance(1, 8) {
 		fmt.Fprintf(&b, "CaptchaRequiredForLogin = true\n")
@@ -532,6 +540,10 @@ func (e1Engine) Generate(seed uint64, prop, tier string) (json.RawMessage, error
 		c := "#gate" + fmt.Sprint(g.Intn(2))
 		add(e1Step{K: "line", S: a, Data: "JOIN " + c})
 		add(e1Step{K: "line", S: a, Data: "MODE " + c + " +x"})
+		if g.Chance(1, 3) {
+			add(e1Step{K: "line", S: b, Data: "NAMES"})
+			add(e1Step{K: "line", S: a, Data: "MODE " + c + " +b " + g.Pick([]string{"*!*@robust/0x{sidb}", "{nickb}!*@*", "*!*@*"})})
+		}
 		for k := 0; k < g.Range(1, 3); k++ {
 			add(e1Step{K: "line", S: b, Data: "JOIN " + c + " {captcha}", Captcha: g.Pick([]string{"ok", "edge", "old", "old5", "ancient", "mut", "wrongpurpose"})})
 		}
@@ -608,6 +620,9 @@ func (e1Engine) Generate(seed uint64, prop, tier string) (json.RawMessage, error
 				st := e1Step{K: "line", S: s, Data: servicesLine(g), Svc: true}
 				if g.Chance(1, 20) {
 					st.Cmid = uint64(g.Range(1, 3)) // a link's POSTs are retried like anybody's
+				}
+				if g.Chance(1, 8) {
+					st.Addr = g.Pick(e1Addrs) // services connect from somewhere, too (possibly a banned address)
 				}
 				add(st)
 			} else if s != svc {
